@@ -2627,7 +2627,12 @@ impl<'de> serde::de::Visitor<'de> for AnnotationsVisitor<'_> {
             if let Some(mut annotationbuilder) = annotationbuilder {
                 let handle_from_temp_id = if self.store.config().strip_temp_ids() {
                     if let BuildItem::Id(s) = &annotationbuilder.id {
-                        resolve_temp_id(s.as_str())
+                        //(only the temporary ids of annotations: "!R1" or "!D1" on an annotation is an ordinary public identifier)
+                        if s.starts_with(Annotation::temp_id_prefix()) {
+                            resolve_temp_id(s.as_str())
+                        } else {
+                            None
+                        }
                     } else {
                         None
                     }
